@@ -91,7 +91,12 @@ Inductive body :=
 | BSet (tgt : option Z) (a : attr) (v : Z)
 | BDelete (tgt : option Z) (a : attr) (idx : option Z)
 | BReadOnly (minver : Z * Z)              (* Query, Locate (1.0), DiscoverVersions (1.1): the version decorator *)
-| BUnsupported.                           (* an operation _process_operation does not know *)
+| BUnsupported                            (* an operation _process_operation does not know *)
+(* Handlers whose guards are not modelled: whether all guards passed is an oracle input
+   (`ok`, taken from the implementation's answer); the model states the EFFECT in either case. *)
+| BKeyPair (ok : bool) (pub_names priv_names : list Z)   (* CreateKeyPair: public key, then private key, one commit *)
+| BDerive (ok : bool) (kind : Z) (names : list Z)        (* DeriveKey: one new symmetric key / secret data *)
+| BOpaqueRO (ok : bool).                  (* operations that only read: Encrypt, Decrypt, Sign, SignatureVerify, MAC, Locate filters, Get variants *)
 
 (* What a handler does to the working state of the session. *)
 Inductive hres :=
@@ -237,6 +242,21 @@ Definition h_delete (h : header) (w : store) (pl tgt : option Z) (a : attr) (idx
       end
   end.
 
+Definition K_PUBLIC := 3. Definition K_PRIVATE := 4.
+
+Definition new_obj (h : header) (u kind : Z) (names : list Z) : obj :=
+  {| o_uid := u; o_owner := h_user h; o_kind := kind; o_state := S_PRE; o_names := names; o_groups := []; o_sens := false |}.
+
+(* _process_create_key_pair l.1580-1603: both objects are added, one commit, the placeholder is the PRIVATE key *)
+Definition h_keypair (h : header) (w : store) (ok : bool) (pub_names priv_names : list Z) : hres :=
+  if negb ok then HFail R_INVALID_FIELD w else
+  HOk (insert (new_obj h (next w + 1) K_PRIVATE priv_names) (insert (new_obj h (next w) K_PUBLIC pub_names) w)) true (Some (next w + 1)).
+
+(* _process_derive_key l.2187-2199 *)
+Definition h_derive (h : header) (w : store) (ok : bool) (kind : Z) (names : list Z) : hres :=
+  if negb ok then HFail R_INVALID_FIELD w else
+  HOk (insert (new_obj h (next w) kind names) w) true (Some (next w)).
+
 Definition dispatch (h : header) (w : store) (pl : option Z) (b : body) : hres :=
   match b with
   | BCreate sym unsup a l m lok names groups sens => h_create h w sym unsup a l m lok names groups sens
@@ -250,6 +270,9 @@ Definition dispatch (h : header) (w : store) (pl : option Z) (b : body) : hres :
   | BDelete tgt a idx => h_delete h w pl tgt a idx
   | BReadOnly mv => if ver_ge (h_ver h) mv then HOk w false None else HFail R_NOT_SUPPORTED w
   | BUnsupported => HFail R_NOT_SUPPORTED w
+  | BKeyPair ok pn vn => h_keypair h w ok pn vn
+  | BDerive ok k names => h_derive h w ok k names
+  | BOpaqueRO ok => if ok then HOk w false None else HFail R_GENERAL w
   end.
 
 (* What SQLAlchemy makes of it: the handler works on the session; commit() publishes the
